@@ -129,7 +129,7 @@ def main(argv=None):
         status = 1
     for key, v in unconfirmed:
         print('UNCONFIRMED solver model (native replay did not reproduce or is not available): %s\n  site: %s\n  model: %s\n  %s' % (
-            key, v['site'], json.dumps(v['model'], default=str)[:600], json.dumps(v.get('replay_result'), default=str)[:600]))
+            key, v['site'], json.dumps(v['model'], default=str)[:300], json.dumps(v.get('replay_result'), default=str)[:300]))
     for name, n in inconclusive[:40]:
         print('INCONCLUSIVE [%s]: %s' % (name, str(n)[:600]))
     for name, d in vac_fail:
